@@ -101,3 +101,7 @@ def run(facts, report, config, prefix="c17.shlcmp"):
                                     "else: the bits shifted out of the top are lost, so for operands >= 2^(BITS - shift) the "
                                     "comparison answers for a different number — compare in a wider type or compare the unshifted "
                                     "operands" % (b.get("name"), span), span, {"body": b["id"]}), config)
+        if sites and n == 0:
+            report.add(Instance("%s|%s" % (prefix, norm_id(b["id"])), prefix, "ok",
+                                "auto: %d left shift(s) of non-constant, non-widened words; none is consumed by an ordering "
+                                "comparison alone" % len(sites), b["span"], {"body": b["id"]}), config)
